@@ -172,6 +172,17 @@ Theorem C19_jsonl_text_mirror : forall (obj : Type) (loads : text -> option obj)
 Proof. exact @jsonl_text_mirror. Qed.
 Print Assumptions C19_jsonl_text_mirror.
 
+(* in text mode the restriction on \r is not needed for the mirror clause: forward iteration uses
+   universal newlines (\n, \r, \r\n) and bytes.splitlines recognises the same three - for EVERY text *)
+Theorem C19_jsonl_text_mirror_all : forall (obj : Type) (loads : text -> option obj),
+  (forall s, loads (s ++ [LF]) = loads s) ->
+  forall t ie, forallb is_scalar t = true ->
+  ie = true \/ forallb (line_ok loads is_ws_str) (splitlines is_nl_byte t) = true ->
+  exists os, jsonl_iter loads TextUtf8 ie false (utf8_encode t) = Ok (os, false)
+          /\ jsonl_iter loads TextUtf8 ie true (utf8_encode t) = Ok (rev os, false).
+Proof. exact @jsonl_text_mirror_all. Qed.
+Print Assumptions C19_jsonl_text_mirror_all.
+
 (* the oracle hypotheses are inhabited: the json.loads fragment used by the correspondence check
    (numbers and escape-free strings between JSON white space) satisfies them, so the theorems
    apply verbatim to the model instance that is compared with the implementation on every run *)
